@@ -24,6 +24,14 @@
 //!     B melds A + refresh; A commits the merge successor m; B melds A + refresh.  A third replica T melds A (holds all
 //!     files): for every snapshot taken on A or B (c0, a1, a2, b1, b2, the two-element head set after each meld, m)
 //!     T.reload_until(heads) shows that snapshot; finally T.reload() shows A's latest.  Thorough repeats this on A and B.
+//!     Variants deep-*: two more commits c1, c2 BEFORE the fork and two more (m2, m3) after the merge, so that the walk
+//!     back from a merge meets the fork block twice while older blocks are still to be applied.
+//! arrayconf:<variant>@<target>   A and B edit the same flattened arrays concurrently (move: A moves b, B moves a from
+//!     inbox♭ to trash♭; append: both append; mixed: A moves, B appends); ONE long-lived replica X melds both and READS
+//!     while the arrays have two leaves, then travels A-head, B-head, both-heads, origin (twice, in different orders), each
+//!     showing exactly the snapshot taken on the authoring replica (both-heads: the one X showed itself), then reload();
+//!     then X commits during the conflict (the arrays get resolved), and the tour is repeated including the new head, also
+//!     on a fresh replica on X's storage.
 //! guard:<name>   staged (reload_until / reload with staged changes is Err, stage(), has_staging(), read(None)
 //!     untouched), unknown-block (Err), missing-pack (the pack of block j removed from storage: reload_until(heads_j) and
 //!     reload_until(heads_k) are Err; reload() then shows snapshot j-1, reload_until(heads_{j-1}) still works),
@@ -275,7 +283,7 @@ fn linear_script(sc: &[Vec<usize>], all_pairs: bool) -> Result<Vec<Vec<String>>,
 
 // ------------------------------------------------------------------------------------------ branching
 
-const VARIANTS: [&str; 3] = ["disjoint", "conflict", "conflict-delete"];
+const VARIANTS: [&str; 5] = ["disjoint", "conflict", "deep-disjoint", "deep-conflict", "conflict-delete"];
 
 fn sync(dst: &mut Melda, src: &Melda, what: &str) -> Result<(), String> {
     orch::ge(&format!("{}: meld", what), || dst.meld(src))?;
@@ -293,6 +301,20 @@ fn build_branch(variant: &str) -> Result<(Vec<Snapshot>, Melda, Melda, Melda), S
     orch::ge("A.update(c0)", || a.update(model.doc()))?;
     commit_one(&a, "c0", None)?;
     snaps.push(snapshot(&a, "A:c0", &mut ka)?);
+    let deep = variant.starts_with("deep-");
+    let variant = variant.trim_start_matches("deep-");
+    if deep {
+        // older ancestors below the fork point: the walk back from a merge meets the fork block twice while
+        // c1 and c0 are still to be applied
+        for (n, ops) in [(1, [1usize, 2usize]), (2, [3, 0])] {
+            for op in ops {
+                model.mutate(op, n + 10);
+            }
+            orch::ge("A.update", || a.update(model.doc()))?;
+            commit_one(&a, &format!("c{}", n), None)?;
+            snaps.push(snapshot(&a, &format!("A:c{}", n), &mut ka)?);
+        }
+    }
     sync(&mut b, &a, "B takes c0")?;
     snaps.push(snapshot(&b, "B:c0", &mut kb)?);
     // A: a1, a2 (array and o1)
@@ -335,6 +357,17 @@ fn build_branch(variant: &str) -> Result<(Vec<Snapshot>, Melda, Melda, Melda), S
     orch::ge("A.update(m)", || a.update(model.doc()))?;
     commit_one(&a, "m", Some(Map::new()))?;
     snaps.push(snapshot(&a, "A:m", &mut ka)?);
+    if deep {
+        // blocks after the merge
+        for (n, ops) in [(2, [0usize, 3usize]), (3, [6, 1])] {
+            for op in ops {
+                model.mutate(op, n + 20);
+            }
+            orch::ge("A.update", || a.update(model.doc()))?;
+            commit_one(&a, &format!("m{}", n), None)?;
+            snaps.push(snapshot(&a, &format!("A:m{}", n), &mut ka)?);
+        }
+    }
     sync(&mut b, &a, "B melds A (m)")?;
     snaps.push(snapshot(&b, "B:m", &mut kb)?);
     let mut t = orch::open(&ad_t)?;
@@ -344,7 +377,7 @@ fn build_branch(variant: &str) -> Result<(Vec<Snapshot>, Melda, Melda, Melda), S
 
 fn branch_variant(variant: &str, also_on_authors: bool) -> Result<Vec<(String, Vec<String>)>, String> {
     let (snaps, a, b, t) = build_branch(variant)?;
-    let latest = snaps.iter().find(|s| s.name == "A:m").cloned().ok_or("driver: no snapshot A:m")?;
+    let latest = snaps.iter().rev().find(|s| s.name.starts_with("A:")).cloned().ok_or("driver: no snapshot of A")?;
     let mut out: Vec<(String, Vec<String>)> = vec![];
     for s in &snaps {
         let mut bad = vec![];
@@ -370,6 +403,111 @@ fn branch_variant(variant: &str, also_on_authors: bool) -> Result<Vec<(String, V
     }
     out.push(("latest".to_string(), tail));
     Ok(out)
+}
+
+// ------------------------------------------------------------------------------------------ array conflict
+
+const ARRAY_VARIANTS: [&str; 3] = ["move", "append", "mixed"];
+
+fn mail(inbox: &[&str], trash: &[&str]) -> Map<String, Value> {
+    let arr = |ids: &[&str]| Value::Array(ids.iter().map(|i| json!({"_id": i, "subject": format!("mail {}", i)})).collect());
+    let mut m = Map::new();
+    m.insert("title".into(), json!("mailbox"));
+    m.insert(format!("inbox{}", F), arr(inbox));
+    m.insert(format!("trash{}", F), arr(trash));
+    m
+}
+
+/// A and B edit the same flattened arrays concurrently; ONE long-lived replica X melds both, READS while the arrays have
+/// two leaves (the merged order is computed), then travels: A's head alone, B's head alone, both heads, the origin —
+/// each must show exactly the snapshot taken on the authoring replica (for both heads: the one X showed itself) —
+/// then reload().  `with_commit`: X also commits during the conflict (the arrays get resolved) and travels again.
+fn arrayconf_variant(variant: &str, with_commit: bool) -> Result<Vec<(String, Vec<String>)>, String> {
+    let mut a = orch::open(&orch::mem())?;
+    let mut b = orch::open(&orch::mem())?;
+    let (mut ka, mut kb, mut kx) = (Known::new(), Known::new(), Known::new());
+    orch::ge("A.update(origin)", || a.update(mail(&["a", "b", "c"], &[])))?;
+    commit_one(&a, "origin", None)?;
+    let s_o = snapshot(&a, "origin", &mut ka)?;
+    sync(&mut b, &a, "B takes the origin")?;
+    let _ = snapshot(&b, "B:origin", &mut kb)?;
+    let (da, db) = match variant {
+        "move" => (mail(&["a", "c"], &["b"]), mail(&["b", "c"], &["a"])),
+        "append" => (mail(&["a", "b", "c", "k5"], &[]), mail(&["a", "b", "c", "k6"], &[])),
+        _ => (mail(&["a", "c"], &["b"]), mail(&["a", "b", "c", "k6"], &[])),
+    };
+    orch::ge("A.update", || a.update(da))?;
+    commit_one(&a, "A's edit", None)?;
+    let s_a = snapshot(&a, "A-head", &mut ka)?;
+    orch::ge("B.update", || b.update(db))?;
+    commit_one(&b, "B's edit", None)?;
+    let s_b = snapshot(&b, "B-head", &mut kb)?;
+    let mut x = orch::open(&orch::mem())?;
+    orch::ge("X.meld(A)", || x.meld(&a))?;
+    orch::ge("X.meld(B)", || x.meld(&b))?;
+    orch::ge("X.refresh", || x.refresh())?;
+    let conflicts = orch::g(|| x.in_conflict()).map_err(|p| format!("panic in in_conflict: {}", p))?;
+    if !conflicts.iter().any(|o| o.starts_with('^')) {
+        return Err(format!("driver: no array in conflict on X: {:?}", conflicts));
+    }
+    orch::ge("X.read", || x.read(None))?; // the merged order is computed (and may be cached) here
+    let s_both = snapshot(&x, "both-heads", &mut kx)?;
+    let mut out: Vec<(String, Vec<String>)> = vec![];
+    let mut tour = |x: &Melda, targets: &[&Snapshot], latest: &Snapshot, tag: &str, out: &mut Vec<(String, Vec<String>)>| {
+        for (n, s) in targets.iter().enumerate() {
+            let mut bad = vec![];
+            travel(x, s, &format!("long-lived replica{}, stop {} of the tour", tag, n + 1), &mut bad);
+            // reading again at every stop keeps the caches warm for the next one
+            let _ = orch::g(|| x.read(None));
+            out.push((format!("{}{}", s.name, tag), bad));
+        }
+        let mut bad = vec![];
+        back_to_latest(x, latest, &format!("long-lived replica{}", tag), &mut bad);
+        out.push((format!("reload{}", tag), bad));
+    };
+    tour(&x, &[&s_a, &s_b, &s_both, &s_o, &s_b, &s_a, &s_both], &s_both, "", &mut out);
+    if with_commit {
+        orch::ge("X.create_object(note)", || x.create_object("note", orch::obj(json!({"n": 1}))))?;
+        commit_one(&x, "X commits during the array conflict", None)?;
+        let s_r = snapshot(&x, "resolved", &mut kx)?;
+        tour(&x, &[&s_a, &s_both, &s_b, &s_r, &s_o, &s_both, &s_r], &s_r, "+commit", &mut out);
+        // a fresh replica on X's storage travels the same way
+        let f = Melda::new(x.get_adapter()).map_err(|e| format!("fresh replica on X's storage: {}", e))?;
+        tour(&f, &[&s_r, &s_a, &s_b, &s_both], &s_r, "+commit/fresh", &mut out);
+    }
+    Ok(out)
+}
+
+fn arrayconf_cases(variant: &str, with_commit: bool, out: &Out) {
+    let input = json!({"family": "arrayconf", "variant": variant, "with_commit": with_commit});
+    out.begin(&format!("arrayconf:{}", variant), input.clone());
+    match orch::g(|| arrayconf_variant(variant, with_commit)) {
+        Ok(Ok(per)) => {
+            // the tours visit a target more than once: one case per target, all its visits
+            let mut merged: Vec<(String, Vec<String>)> = vec![];
+            for (name, bad) in per {
+                match merged.iter_mut().find(|(n, _)| *n == name) {
+                    Some((_, b)) => b.extend(bad),
+                    None => merged.push((name, bad)),
+                }
+            }
+            for (name, bad) in merged {
+                let id = format!("arrayconf:{}@{}", variant, name);
+                out.case(&id, true);
+                book(out, &id, &input, "arrayconf", &bad);
+            }
+        }
+        Ok(Err(e)) => {
+            let id = format!("arrayconf:{}@setup", variant);
+            out.case(&id, true);
+            book(out, &id, &input, "setup", &[format!("the history could not be built: {}", e)]);
+        }
+        Err(p) => {
+            let id = format!("arrayconf:{}@setup", variant);
+            out.case(&id, true);
+            book(out, &id, &input, "panic", &[format!("panic: {}", p.lines().next().unwrap_or(""))]);
+        }
+    }
 }
 
 // ------------------------------------------------------------------------------------------ guards
@@ -571,8 +709,11 @@ fn work(thorough: bool, seed: u64, out: &Out) {
             linear_cases(idx, 9, seed, false, out);
         }
     }
-    for v in VARIANTS.iter().take(if thorough { 3 } else { 2 }) {
+    for v in VARIANTS.iter().take(if thorough { 5 } else { 4 }) {
         branch_cases(v, thorough, out);
+    }
+    for v in ARRAY_VARIANTS {
+        arrayconf_cases(v, true, out);
     }
     for gname in GUARDS {
         guard_cases(gname, out);
@@ -583,9 +724,9 @@ pub fn run(thorough: bool, seed: u64) -> Report {
     let mut rep = Report::new(
         "time_travel",
         if thorough {
-            "linear: 40 scripts (s0 fixed, 39 seeded; two mutations per step out of update o1, title, append / remove first / reverse / change an item of the single-writer flattened array, delete or re-create o2, delete or re-create o1) of k = 7 commits with every there-and-back pair (i, j, i), plus 10 scripts of k = 9; per step: authoring replica (reload_until twice, reload), fresh replica on the same adapter, Melda::new_until; branch: variants disjoint / conflict / conflict-delete, 10 snapshots each (c0, a1, a2, b1, b2, the two-element head sets after each meld, m) checked on a third replica holding all files and on A and B; 4 guard cases"
+            "linear: 40 scripts (s0 fixed, 39 seeded; two mutations per step out of update o1, title, append / remove first / reverse / change an item of the single-writer flattened array, delete or re-create o2, delete or re-create o1) of k = 7 commits with every there-and-back pair (i, j, i), plus 10 scripts of k = 9; per step: authoring replica (reload_until twice, reload), fresh replica on the same adapter, Melda::new_until; branch: variants disjoint / conflict / deep-disjoint / deep-conflict / conflict-delete (deep: two older commits below the fork, two blocks after the merge), every snapshot checked on a third replica holding all files and on A and B; arrayconf: variants move / append / mixed on one long-lived replica, before and after a commit made during the array conflict; 4 guard cases"
         } else {
-            "linear: 6 scripts (s0 fixed, 5 seeded; two mutations per step out of update o1, title, append / remove first / reverse / change an item of the single-writer flattened array, delete or re-create o2, delete or re-create o1) of k = 5 commits, there-and-back (i, k+1-i, i); per step: authoring replica (reload_until twice, reload), fresh replica on the same adapter, Melda::new_until; branch: variants disjoint / conflict, 10 snapshots each (c0, a1, a2, b1, b2, the two-element head sets after each meld, m) checked on a third replica holding all files; 4 guard cases"
+            "linear: 6 scripts (s0 fixed, 5 seeded; two mutations per step out of update o1, title, append / remove first / reverse / change an item of the single-writer flattened array, delete or re-create o2, delete or re-create o1) of k = 5 commits, there-and-back (i, k+1-i, i); per step: authoring replica (reload_until twice, reload), fresh replica on the same adapter, Melda::new_until; branch: variants disjoint / conflict / deep-disjoint / deep-conflict (deep: two older commits below the fork, two blocks after the merge), every snapshot (c0.., a1, a2, b1, b2, the two-element head sets after each meld, m..) checked on a third replica holding all files; arrayconf: variants move / append / mixed on one long-lived replica, before and after a commit made during the array conflict; 4 guard cases"
         },
         "enumeration of scripts x steps, branch variants x snapshots, guards; one case per script and step / variant and snapshot / guard, each combining all its checks; every case non-trivial; guarded, 10 s watchdog",
     );
@@ -611,6 +752,11 @@ pub fn replay(case: &Value) -> Value {
         Some("branch") => {
             if let Some(v) = VARIANTS.iter().find(|v| Some(**v) == inp["variant"].as_str()) {
                 branch_cases(v, inp["authors"].as_bool().unwrap_or(false), out);
+            }
+        }
+        Some("arrayconf") => {
+            if let Some(v) = ARRAY_VARIANTS.iter().find(|v| Some(**v) == inp["variant"].as_str()) {
+                arrayconf_cases(v, inp["with_commit"].as_bool().unwrap_or(true), out);
             }
         }
         Some("guard") => {
